@@ -9,3 +9,9 @@ import PyodaProofs.C20
 #print axioms Pyoda.C20.readNTicks_linear
 #print axioms Pyoda.C20.readFields_fuel_irrelevant
 #print axioms Pyoda.C20.element_readers_progress
+#print axioms Pyoda.C20.truncation_anywhere
+#print axioms Pyoda.C20.loadAndUse_work_bound
+#print axioms Pyoda.C20.payloads_fit
+#print axioms Pyoda.C20.fromStream_as_written
+#print axioms Pyoda.C20.forId_as_written
+#print axioms Pyoda.C20.loadAndUseRaw_outcome
